@@ -138,6 +138,21 @@ CLAIMED = {
         "Trusted: Lean kernel; ANTLR runtime/generated parser (modelled, tied by correspondence).",
         "DESIGN.md §7 C11",
     ),
+    "C01": (
+        "Lean 4 invariant proof over an abstract POSIX file system with entry identities: every guarded primitive (mkdir, rename onto a non-existing path) preserves the list of leaves and tree-shape; FileRenamer/FileMover without override only issue guarded primitives; the two-pass pipeline passes override only from the override branch; lifted to every run, prefix and fault schedule + instrumented differential runs of the real CLI",
+        "Proved in Lean (theorem C01.no_loss) for every well-formed tree, file list, plan, processing order, name/"
+        "directory/path mode, answer sequence and injected fault position, under stop/ignore/manual-without-override: "
+        "after every primitive file-system operation and at the end of the run the list of (identity, kind, content) of "
+        "all non-directory entries equals the initial one and the file system is still a tree; plus a witness that an "
+        "unguarded rename loses a file. The model (FS/Renamer/Pipeline.lean) is tied to the real CLI by instrumented "
+        "runs (os.rename/os.mkdir wrapped in-process, snapshot with inodes after every primitive, fault injection): "
+        "exit status, reported renames, primitive log and final tree with identities are compared with the model, "
+        "and the property itself is evaluated on the snapshots.",
+        "Trusted: Lean kernel; rename(2)/mkdir(2) semantics as modelled (atomic, single file system); shutil.move's "
+        "cross-device copy fallback and paths through symlinked directories are not modelled (oracle only); hand-written "
+        "model tied by sampled correspondence.",
+        "DESIGN.md §7 C01",
+    ),
 }
 
 NOT_YET = "check not built yet in this snapshot of /verif (work in progress, see DESIGN.md §7)"
